@@ -876,7 +876,7 @@ func runSysCase(c sysCase, col *collector, sec *vh.Section) {
 					werr = wr.Err
 				}
 				buf := rpc.VerifC01EncodeWritePacket(string(op.Tags), string(op.WFields), apiEvs(op.Evs))
-				st.line = fmt.Sprintf("w.wp %d %s %s", op.Part, vh.Hx(buf), kvTable(textsOf(string(op.WFields), op.Evs)))
+				st.line = fmt.Sprintf("w.wp %d %d %s %s", op.Part, maxRec, vh.Hx(buf), kvTable(textsOf(string(op.WFields), op.Evs)))
 			case "raw":
 				aevs := apiEvs(op.Evs)
 				buf := rpc.VerifC01EncodeWritePacket(string(op.Tags), string(op.WFields), aevs)
@@ -901,7 +901,8 @@ func runSysCase(c sysCase, col *collector, sec *vh.Section) {
 					}
 				}
 				werr = rpc.VerifC01ServeWritePacket(srv.Ctx, srv.Parts, append([]byte{}, vb...))
-				st.line = fmt.Sprintf("w.wp %d %s %s", op.Part, vh.Hx(vb), kvTable(textsOf(string(op.WFields), op.Evs)))
+				// the export serves the body without the ingestor's record-size limit (0): raw bodies carry no oversize events
+				st.line = fmt.Sprintf("w.wp %d 0 %s %s", op.Part, vh.Hx(vb), kvTable(textsOf(string(op.WFields), op.Evs)))
 			}
 			st.w = rawW{calls: rec.take(), acked: werr == nil}
 			if len(st.w.calls) > 1 {
@@ -929,7 +930,8 @@ func runSysCase(c sysCase, col *collector, sec *vh.Section) {
 				p.spec = append(p.spec, adopted...)
 				nEvents += len(adopted)
 			default:
-				if wfOK && !cutShort && !badEv && op.Tags != "" && p.line != "" {
+				// rejecting a write that holds a record the readers could not serve is what the property demands (repair of F20a)
+				if wfOK && !cutShort && !badEv && !oversize && op.Tags != "" && p.line != "" {
 					specFail(st, "valid-write-rejected", "", "a well-formed write is rejected: "+werr.Error(), "rejected", "acknowledged")
 				}
 			}
@@ -1146,7 +1148,9 @@ func genSysCase(r *vh.Rng, thorough bool) sysCase {
 		// boundary records: exactly MaxRecordSize-1 / MaxRecordSize, and (only in oversize histories) MaxRecordSize+1
 		if c.MaxRec != 0 && len(op.Evs) > 0 && r.Chance(1, 2) {
 			deltas := []int{-1, 0}
-			if allowOversize {
+			if allowOversize && op.Via == "rpc" {
+				// above the limit only through the RPC client: that is the write path of the property (ServerIngestor.write); in-process
+				// callers of partition.Service.Write are not clients
 				deltas = []int{-1, 0, 1, 1, 30}
 			}
 			sz := c.MaxRec + r.PickI(deltas)
